@@ -1,5 +1,6 @@
 import Driver.Common
 import CoapVerif.Model.Limiter
+import CoapVerif.Model.LimiterWiring
 import CoapVerif.Spec.Limiter
 /-!
 Driver for C16.  Input: one history per line, as printed by harness/c16:
@@ -91,18 +92,22 @@ def parseSeg (s : String) : Option Seg :=
       some (.line evs o)
   | _ => none
 
-def parseHistory (line : String) : Option (Int × Int × List Seg) :=
+/-- header `cfg L E` (limiter object) or `conn <transport> L E` (a real connection; transports ending in `srv` are connections
+    accepted by a real server that was configured with L / E).  Returns the transport ("" for `cfg`), L, E and the lines. -/
+def parseHistory (line : String) : Option (String × Int × Int × List Seg) :=
   match splitOnStr line ";" with
   | c :: rest =>
     match words c with
     | ["cfg", l, e] => do
       let segs ← rest.mapM parseSeg
-      some ((← parseInt? l), (← parseInt? e), segs)
-    | ["conn", _, l, e] => do
+      some ("", (← parseInt? l), (← parseInt? e), segs)
+    | ["conn", tr, l, e] => do
       let segs ← rest.mapM parseSeg
-      some ((← parseInt? l), (← parseInt? e), segs)
+      some (tr, (← parseInt? l), (← parseInt? e), segs)
     | _ => none
   | _ => none
+
+def serverMade (tr : String) : Bool := tr.endsWith "srv"
 
 /-! ### judge -/
 
@@ -114,8 +119,8 @@ def toSpecEv : XEv → Spec.Limiter.Ev
 def judgeHistory (line : String) : String :=
   match parseHistory line with
   | none => "bad-op"
-  | some (l, e, segs) => Id.run do
-    let mut st : Spec.Limiter.JState := { cfg := ⟨l.toNat, e.toNat⟩ }
+  | some (tr, l, e, segs) => Id.run do
+    let mut st : Spec.Limiter.JState := { cfg := { limit := l.toNat, epLimit := e.toNat, exact := !serverMade tr } }
     let mut i := 0
     for sg in segs do
       i := i + 1
@@ -192,8 +197,10 @@ def fmtObs (o : ObsLine) : String :=
 def modelHistory (line : String) : String :=
   match parseHistory line with
   | none => "bad-op"
-  | some (l, e, segs) => Id.run do
-    let mut cands : List Cand := [⟨init l e, []⟩]
+  | some (tr, l, e, segs) => Id.run do
+    -- a connection accepted by a server runs with the limits the server's set-up gives it (Model/LimiterWiring.lean)
+    let lim := Model.LimiterWiring.limitsFor tr l e
+    let mut cands : List Cand := [⟨init lim.1 lim.2, []⟩]
     let mut i := 0
     let mut maxc := 1
     for sg in segs do
